@@ -1000,6 +1000,16 @@ impl Brc20ProgDatabase {
             .into());
         }
 
+        // Crash safety: the recorded height (the last row of block_number_to_hash) must cover
+        // everything else that is on disk at every moment, otherwise a reorg after a crash is
+        // taken for a no-op and stale rows stay. So the heights are persisted first (the reorg of
+        // the versioned tables below persists rows of blocks that were not committed yet) and the
+        // rows above the valid block are removed from block_number_to_hash last.
+        self.db_block_number_to_hash
+            .as_mut()
+            .expect(DB_MUTEX_ERROR)
+            .commit()?;
+
         self.db_account_memory
             .as_mut()
             .expect(DB_MUTEX_ERROR)
@@ -1049,15 +1059,15 @@ impl Brc20ProgDatabase {
             .expect(DB_MUTEX_ERROR)
             .reorg(latest_valid_block_number)?;
 
-        self.db_block_number_to_hash
-            .as_mut()
-            .expect(DB_MUTEX_ERROR)
-            .reorg(latest_valid_block_number)?;
         self.db_block_number_to_block
             .as_mut()
             .expect(DB_MUTEX_ERROR)
             .reorg(latest_valid_block_number)?;
         self.db_block_number_to_raw_block
+            .as_mut()
+            .expect(DB_MUTEX_ERROR)
+            .reorg(latest_valid_block_number)?;
+        self.db_block_number_to_hash
             .as_mut()
             .expect(DB_MUTEX_ERROR)
             .reorg(latest_valid_block_number)?;
